@@ -4,6 +4,7 @@ use crate::report::Cfg;
 use crate::Case;
 
 pub mod bitvec;
+pub mod huge;
 pub mod iters;
 pub mod paths;
 pub mod prefetch;
@@ -17,13 +18,13 @@ pub mod vectors;
 pub fn cases(cfg: &Cfg) -> Vec<Case> {
     match cfg.prop.as_str() {
         "NOOP" => Vec::new(),
-        "C01" => trees::cases_c01(cfg),
+        "C01" => with(trees::cases_c01(cfg), huge::huge_cases(cfg, "C01")),
         "C02" => trees::cases_c02(cfg),
         "C03" => trees::cases_c03(cfg),
         "C04" => total::cases_c04(cfg),
-        "C05" => vectors::cases_c05(cfg),
-        "C06" => vectors::cases_c06(cfg),
-        "C07" => vectors::cases_c07(cfg),
+        "C05" => with(vectors::cases_c05(cfg), huge::huge_cases(cfg, "C05")),
+        "C06" => with(vectors::cases_c06(cfg), huge::huge_cases(cfg, "C06")),
+        "C07" => with(vectors::cases_c07(cfg), huge::huge_cases(cfg, "C07")),
         "C08" => bitvec::cases_c08(cfg),
         "C09" => prefetch::cases_c09(cfg),
         "C10" => twins::cases_c10(cfg),
@@ -40,4 +41,9 @@ pub fn cases(cfg: &Cfg) -> Vec<Case> {
             std::process::exit(64);
         }
     }
+}
+
+fn with(mut a: Vec<Case>, b: Vec<Case>) -> Vec<Case> {
+    a.extend(b);
+    a
 }
